@@ -675,7 +675,7 @@ def part_e2e(chk, T, runner, pending=()):
     for s in STRUCT_JOBS:
         jobs.append(("s", struct_job(s)))
     # 4. random combinations
-    nrand = 150 if chk.tier == "quick" else 6000
+    nrand = 150 if chk.tier == "quick" else 15000
     for _ in range(nrand):
         jobs.append(("r", random_job(T, rng)))
     # 5. job JSON with a single item where the schema has an array (JSON::checkSchema accepts it): same job, other JSON shape
@@ -889,7 +889,38 @@ def part_pairs(chk, T, runner):
             chk.violation(rep, no_input=True)
         else:
             chk.violation(rep, signature=sig)
+    # cross-check with the footprints translated from QPDFJob_config.cc (theorem commute_or_listed): every pair observed not to commute
+    # must be a pair of methods whose footprints interfere
+    cp = common.run_lines(os.path.join(common.EXTRACT, "model_runner"), ["conflict_pairs"])[0]
+    listed = set()
+    for x in cp.split(";"):
+        if "+" in x:
+            a, b = x.split("+")
+            listed.add((a, b))
+            listed.add((b, a))
+
+    def methods_of(tb, k):
+        if tb is None and k == "encrypt":
+            return ["c_main.encrypt", "c_enc.endEncrypt"]
+        e = (T.main if tb is None else T.sub[tb]).get(k)
+        return ["%s.%s" % (e["target"][1], e["target"][2])] if e and e["target"][0] == "config" else []
+    missed = []
+    for name in sorted(found):
+        if name.startswith("encrypt."):
+            tb, ks = name[8:].split(":")
+            k1, k2 = ks.split("+")
+            m1, m2 = methods_of(tb, k1), methods_of(tb, k2)
+        else:
+            k1, k2 = name.split("+")
+            m1, m2 = methods_of(None, k1), methods_of(None, k2)
+        if not any((a, b) in listed for a in m1 for b in m2):
+            missed.append(name)
+    if missed:
+        chk.violation({"kind": "correspondence-broken", "correspondence": "corr:C19:footprints", "pairs": missed,
+                       "note": "these option pairs do not commute on the real front end but the footprints translated from QPDFJob_config.cc do not "
+                               "interfere: the translation (harness/translate_job_tables.py, parse_config_footprints) misses a shared member"}, no_input=True)
     chk.count("pairs", 2 * len(cases) + 4 * len(prepared), set(found), samples=observed[:3])
+    chk.cov["parts"]["pairs"]["footprint_conflicts_listed"] = len(listed) // 2
     chk.cov["parts"]["pairs"]["non_commuting_pairs"] = observed
     chk.cov["parts"]["pairs"]["pairs_swept"] = len(cases)
     chk.cov["parts"]["pairs"]["instances"] = len(inst)
